@@ -10,7 +10,7 @@ from concurrent.futures import ThreadPoolExecutor
 
 ROOT = '/verif/harmless'
 PROPS_FOR = {'lexer.rs': ['C02', 'C08', 'C01'], 'parser.rs': ['C02', 'C08', 'C01'], 'regex.rs': ['C19'], 'specification/src/lib.rs': ['C18', 'C07', 'C08', 'C17'],
-             'chardata.rs': ['C20', 'C17', 'C14', 'C01', 'C08'], 'src/element.rs': ['C14', 'C17', 'C07'], 'elementraw.rs': ['C07', 'C14'], 'arxmlfile.rs': ['C17']}
+             'chardata.rs': ['C20', 'C17', 'C14', 'C01', 'C08'], 'src/element.rs': ['C14', 'C17', 'C07'], 'elementraw.rs': ['C13', 'C07', 'C14'], 'arxmlfile.rs': ['C17'], 'autosarmodel.rs': ['C13']}
 
 
 def props_of(patch):
